@@ -304,3 +304,40 @@ def posterior(states, data, tree_dist):
     lp = np.array([tree_dist.log_p_one(build_tree(data, f, o)) for f, o in states])
     pi = np.exp(lp - lp.max())
     return pi / pi.sum()
+
+
+# --------------------------------------------------------------------------- resampling-threshold ties
+TIE = {"theta": None, "hit": False, "min_gap": 1.0}
+
+
+def install_tie_probe():
+    """Record whether any adaptive-resampling decision of the real code was taken with the relative ESS
+    within 1e-9 of the threshold.  The model decides `relative_ess <= threshold` in exact arithmetic, the
+    code in floats: on an exact tie (e.g. two particles with weights 2:1 and threshold 9/10) the two may
+    legitimately differ by an ulp, so such cases are excluded from the comparison (counted, not judged)."""
+    from phyclone.smc.swarm import ParticleSwarm
+
+    if getattr(ParticleSwarm, "_verif_tie_probe", False):
+        return TIE
+    orig = ParticleSwarm.relative_ess.fget
+
+    def probed(self):
+        v = orig(self)
+        th = TIE["theta"]
+        if th is not None:
+            gap = abs(float(v) - th)
+            if gap < TIE["min_gap"]:
+                TIE["min_gap"] = gap
+            if gap < 1e-9:
+                TIE["hit"] = True
+        return v
+
+    ParticleSwarm.relative_ess = property(probed)
+    ParticleSwarm._verif_tie_probe = True
+    return TIE
+
+
+def tie_reset(theta):
+    TIE["theta"] = float(theta)
+    TIE["hit"] = False
+    TIE["min_gap"] = 1.0
